@@ -9,10 +9,12 @@ CLAIM = ('Decides statically the three structural facts the termination argument
          'DESIGN.md, at most two consecutive taken branches); (2) the jump target is the instruction after the last writer of the *branch* register and the branch marks all registers; '
          '(3) the last-writer table over-approximates what each executor can write, so the loop body neither modifies the branch register nor contains another branch.'
          ' For A64 additionally: last-writer marks are recorded only after the last instruction word of a handler (LW-POS); for RV64: each of the three branch forms is used only within its encodable distance and scatters the distance bits as the ISA requires (RV-BRANCH-RANGE, RV-BRANCH-ENC).'
-         ' The RV64 vector generator is included in the last-writer comparison; the far branch form of the scalar RV64 back-end is decoded (it must branch over the jal exactly when the masked value is non-zero).')
+         ' The RV64 vector generator is included in the last-writer comparison; the far branch form of the scalar RV64 back-end is decoded (it must branch over the jal exactly when the masked value is non-zero).'
+         ' The value every back-end stores in its last-writer table is the instruction being translated (its index, or the code position after it), never an older mark (LW-VALUE x4).')
 LEVEL_NOTE = ('Trusted: the arithmetic lemma (proved in DESIGN.md, independent of the code); clang AST; for the JITs the write sets of emitted native code are taken to be those of the '
               'interpreter (sibling agreement of marks only).')
-EXPLANATION = 'CBR-BITS (16 shifts x engines), CBR-TARGET, LW-SOUND and LW-SPEC over the 46 decoder paths, LW-SIB between engines. CBR-BITS/TARGET for A64 and RV64, LW-POS, RV-BRANCH-RANGE, RV-BRANCH-ENC.'
+EXPLANATION = ('CBR-BITS (16 shifts x engines), CBR-TARGET, LW-SOUND and LW-SPEC over the 46 decoder paths, LW-SIB between engines. CBR-BITS/TARGET for A64 and RV64, LW-POS, RV-BRANCH-RANGE, RV-BRANCH-ENC.'
+         ' LW-VALUE x4.')
 
 
 def run(ctx, R):
